@@ -94,7 +94,13 @@ impl Chain {
   /// a fresh regtest node with the genesis block indexed
   pub fn new() -> Chain {
     let core = ordkit::regtest_core();
-    let dir = tempfile::TempDir::new().unwrap();
+    // the index database is transient: keep it on tmpfs when there is one (redb commits with
+    // Durability::Immediate, i.e. one fsync per block)
+    let dir = if std::path::Path::new("/dev/shm").is_dir() {
+      tempfile::Builder::new().prefix("hx-runes").tempdir_in("/dev/shm").unwrap()
+    } else {
+      tempfile::TempDir::new().unwrap()
+    };
     let index = ordkit::open_index(&core, dir.path(), &["--index-runes", "--no-index-inscriptions"]);
     let mut c = Chain {
       core,
